@@ -225,3 +225,36 @@ package db
 //@   assert before call#2 Commit: !res(Has, 1, 0) && res(Set, 1, 0) == nil
 //@   tags C14 C05
 //@ apply TxnAPI: (*DB).initialize
+//@
+//@ // ===== C19: schema evolution writes only the system store: nothing reachable from the schema
+//@ // operations asks the transaction for the document, head or block stores, so document values,
+//@ // identifiers and commit history cannot be touched by a patch or a version switch
+//@ load-for C19: internal/db/description, internal/db/id
+//@ discipline no-reach from (*DB).patchSchema, (*DB).updateSchema, (*DB).setActiveSchemaVersion, (*DB).createCollections to (datastore.Txn).Datastore, (datastore.Txn).Headstore, (datastore.Txn).Blockstore, (datastore.Txn).Encstore tags C19
+//@ // switching the active version saves the target as active and at most one other version as inactive
+//@ ghost colSaves int
+//@ extern description.SaveCollection(ctx, col) -> (e)
+//@   ensures colSaves == old(colSaves) + 1
+//@   modifies colSaves
+//@ func (*DB).setActiveSchemaVersion -> (err)
+//@   assert before call#1 SaveCollection: arg1.IsActive && arg1.VersionID == res(GetCollectionByID, 1, 0).VersionID
+//@   assert before call#2 SaveCollection: !arg1.IsActive
+//@   ensures colSaves <= old(colSaves) + 2
+//@   modifies colSaves
+//@   tags C19 C05
+//@ apply ErrFlow: (*DB).setActiveSchemaVersion, (*DB).patchSchema
+//@ // a node merging commits of a newer schema version ignores fields it does not know, and only those
+//@ extern (client.CollectionDefinition).GetFieldByName(d, name) -> (f, ok)
+//@   pure
+//@   nodefault
+//@ extern (crdt.CRDT).* -> (r)
+//@   pure
+//@   nodefault
+//@ func (*mergeProcessor).initCRDTForType -> (r, err)
+//@   ensures !res(IsComposite, 1, 0) && !res(IsCollection, 1, 0) && res(GetShortCollectionID, 1, 1) == nil && !res(GetFieldByName, 1, 1) ==> r == nil && err == nil
+//@   assert before call#1 GetFieldByName: arg1 == res(GetFieldName, 1, 0)
+//@   tags C19
+//@ func (*mergeProcessor).processBlock -> (err)
+//@   assert before call#1 ProcessBlock: res(initCRDTForType, 1, 0) != nil && res(initCRDTForType, 1, 1) == nil && arg1 == res(initCRDTForType, 1, 0)
+//@   tags C19 C05
+//@ apply ErrFlow: (*mergeProcessor).processBlock, (*mergeProcessor).initCRDTForType, (*mergeProcessor).mergeComposites, (*mergeProcessor).loadComposites
